@@ -630,7 +630,18 @@ def amp_signature(rec):
     return "amp|no-entity-breaking-filter"
 
 
-def output_oracle(prefix, nodes, data, on, off, breakers, filters_used):
+def prim_strings(prims):
+    for k in ("unescape", "strip", "unquote"):
+        for a, b in prims.get(k, []):
+            yield b
+    for _, a, b in prims.get("b64", []):
+        if b is not None:
+            yield b
+    for _, b in prims.get("liststr", []):
+        yield b
+
+
+def output_oracle(prefix, nodes, data, on, off, breakers, filters_used, prims=None):
     """None | (signature, detail). `on`/`off` = outcomes with autoescape on/off."""
     if "ok" not in on:
         return None
@@ -645,7 +656,8 @@ def output_oracle(prefix, nodes, data, on, off, breakers, filters_used):
     # from its __str__ legitimately renders differently: the two settings read different methods)
     twofaced = any(isinstance(v, dict) and "h" in v and v["h"] != v["t"] for v in data.values())
     if "ok" in off and not twofaced and not has5(off["ok"]) and off["ok"] != out:
-        strings = [s for s, _ in data_strings(data)] + [x for k, x in walk_exprs(nodes) if k == "lit"]
+        # a special character can also come out of a decoding function or of str(list) (quotes of the repr)
+        strings = [s for s, _ in data_strings(data)] + [x for k, x in walk_exprs(nodes) if k == "lit"] + list(prim_strings(prims or {}))
         if any(has5(s) for s in strings):
             return ("noop|escaped-value-observed", f"autoescape off: {off['ok'][:80]!r}, on: {out[:80]!r}")
         return ("noop|clean-data", f"autoescape off: {off['ok'][:80]!r}, on: {out[:80]!r} with no special character anywhere")
@@ -1111,7 +1123,7 @@ class FilterTaintStream(Stream):
         return [["output", case["expr"]]]
 
     def oracle(self, case, obs):
-        return output_oracle("chain", self._nodes(case), case["data"], obs["on"], obs["off"], obs["breakers"], filters_in(self._nodes(case)))
+        return output_oracle("chain", self._nodes(case), case["data"], obs["on"], obs["off"], obs["breakers"], filters_in(self._nodes(case)), obs["prims"])
 
     def nontrivial(self, case, obs):
         return "ok" in obs["on"] and any(has5(s) for s, _ in data_strings(case["data"]))
@@ -1236,7 +1248,7 @@ class RenderStream(Stream):
         return mobs
 
     def oracle(self, case, obs):
-        return output_oracle("render", case["nodes"], case["data"], obs["on"], obs["off"], obs["breakers"], filters_in(case["nodes"]))
+        return output_oracle("render", case["nodes"], case["data"], obs["on"], obs["off"], obs["breakers"], filters_in(case["nodes"]), obs["prims"])
 
     def nontrivial(self, case, obs):
         return "ok" in obs["on"] and has5(obs["on"]["ok"].replace("&", "")+("&" if "E" in skeleton(obs["on"]["ok"]) else "")) or \
